@@ -411,53 +411,60 @@ theorem retry_order_free (s t : List Str) (h : s.Perm t)
 example : ∀ a ∈ (["ServiceUnavailable".toList, "DeadlineExceeded".toList] : List Str),
     a ∈ exceptionNames.map String.toList := by decide
 
-/-- **Resource path helpers, partial**: `service.resource_messages|sort(attribute="resource_type")`
-is order-free only under the hypothesis that no two resources of the service share a short type
-name up to case.  The hypothesis is NOT implied by anything protoc or the generator checks. -/
-theorem resource_helpers_order_free_partial (s t : List Resource) (h : s.Perm t)
-    (hinj : ∀ a ∈ s, ∀ b ∈ s, lower (resourceType a) = lower (resourceType b) → a = b) :
-    resourceHelperOrder s = resourceHelperOrder t :=
-  sort_by_key_perm_invariant (fun a => lower (resourceType a)) s t h hinj
+def thingFoo : Resource := ⟨['f','o','o','.','e','x','a','m','p','l','e','.','c','o','m','/','T','h','i','n','g'], ['a','s','/','{','a','}']⟩
+def thingBar : Resource := ⟨['b','a','r','.','e','x','a','m','p','l','e','.','c','o','m','/','T','h','i','n','g'], ['b','s','/','{','b','}']⟩
+def thingLower : Resource := ⟨['f','o','o','.','e','x','a','m','p','l','e','.','c','o','m','/','t','h','i','n','g'], ['c','s','/','{','c','}']⟩
 
-example : ∀ a ∈ ([⟨"foo.example.com/Thing".toList, "as/{a}".toList⟩, ⟨"foo.example.com/Book".toList, "bs/{b}".toList⟩] : List Resource),
-    ∀ b ∈ ([⟨"foo.example.com/Thing".toList, "as/{a}".toList⟩, ⟨"foo.example.com/Book".toList, "bs/{b}".toList⟩] : List Resource),
-    lower (resourceType a) = lower (resourceType b) → a = b := by decide
-
-def thingFoo : Resource := ⟨"foo.example.com/Thing".toList, "as/{a}".toList⟩
-def thingBar : Resource := ⟨"bar.example.com/Thing".toList, "bs/{b}".toList⟩
-
-/-- **§9-F4.** Two resources `foo.example.com/Thing` and `bar.example.com/Thing`: the two iteration
-orders of the frozenset give two different orders of `thing_path` definitions (the later one wins
-at import time), so the response depends on `PYTHONHASHSEED`. -/
-theorem resource_helpers_counterexample :
-    resourceHelperOrder [thingFoo, thingBar] = [thingFoo, thingBar] ∧
-    resourceHelperOrder [thingBar, thingFoo] = [thingBar, thingFoo] ∧
-    resourceHelperOrder [thingFoo, thingBar] ≠ resourceHelperOrder [thingBar, thingFoo] :=
-  sort_by_key_needs_injective (fun a => lower (resourceType a)) thingFoo thingBar (by decide) (by decide)
-
-/-- case folding makes `…/Thing` and `…/thing` collide as well -/
-theorem resource_helpers_case_counterexample :
-    resourceHelperOrder [⟨"foo.example.com/Thing".toList, []⟩, ⟨"foo.example.com/thing".toList, []⟩] ≠
-    resourceHelperOrder [⟨"foo.example.com/thing".toList, []⟩, ⟨"foo.example.com/Thing".toList, []⟩] :=
-  (sort_by_key_needs_injective (fun a => lower (resourceType a)) _ _ (by decide) (by decide)).2.2
-
-/-- **The proposed repair is order-free** whenever the full resource types are distinct (which the
-resource-name specification requires): first sort by the full type, then stably by the short one. -/
-theorem resource_helpers_patched_order_free (s t : List Resource) (h : s.Perm t)
+/-- **Resource path helpers** (the loop as repaired for §9-F4): the order of the emitted
+`<x>_path` helpers is the same for every iteration order of `service.resource_messages`.
+The only hypothesis left is that two different resource messages of the service do not declare the
+very same full type string (the resource-name specification requires that; the short-type
+hypothesis of the former `_partial` theorem is gone). -/
+theorem resource_helpers_order_free (s t : List Resource) (h : s.Perm t)
     (hinj : ∀ a ∈ s, ∀ b ∈ s, a.type = b.type → a = b) :
-    resourceHelperOrderPatched s = resourceHelperOrderPatched t := by
-  unfold resourceHelperOrderPatched
+    resourceHelperOrder s = resourceHelperOrder t := by
+  unfold resourceHelperOrder
   rw [sort_by_key_perm_invariant (·.type) s t h hinj]
 
-example : ∀ a ∈ [thingFoo, thingBar], ∀ b ∈ [thingFoo, thingBar], a.type = b.type → a = b := by decide
+example : ∀ a ∈ [thingFoo, thingBar, thingLower], ∀ b ∈ [thingFoo, thingBar, thingLower], a.type = b.type → a = b := by decide
 
-/-- and it leaves today's order unchanged wherever today's order is well defined -/
-theorem resource_helpers_patched_conservative (s : List Resource)
+/-- **Regression for §9-F4** (`foo.example.com/Thing`, `bar.example.com/Thing`, and the case-folded
+twin `foo.example.com/thing`): every iteration order of the set yields one and the same order of
+definitions. -/
+theorem resource_helpers_f4_regression (t : List Resource) (h : t.Perm [thingFoo, thingBar, thingLower]) :
+    resourceHelperOrder t = resourceHelperOrder [thingFoo, thingBar, thingLower] :=
+  (resource_helpers_order_free _ _ h.symm (by decide)).symm
+
+/-- the first (full-type) stage is what makes it so: with the single-stage loop that the templates
+used before the repair, the same two resources come out in set order -/
+theorem single_stage_sort_order_dependent :
+    resourceHelperOrderSingleStage [thingFoo, thingBar] ≠ resourceHelperOrderSingleStage [thingBar, thingFoo] :=
+  (sort_by_key_needs_injective (fun a => lower (resourceType a)) thingFoo thingBar (by decide) (by decide)).2.2
+
+/-- **The repair is conservative**: wherever the single-stage order was well defined (short types
+distinct up to case) the two-stage loop emits exactly that order. -/
+theorem resource_helpers_two_stage_conservative (s : List Resource)
     (hinj : ∀ a ∈ s, ∀ b ∈ s, lower (resourceType a) = lower (resourceType b) → a = b) :
-    resourceHelperOrderPatched s = resourceHelperOrder s := by
-  unfold resourceHelperOrderPatched resourceHelperOrder jinjaSortAttr
+    resourceHelperOrder s = resourceHelperOrderSingleStage s := by
+  unfold resourceHelperOrder resourceHelperOrderSingleStage jinjaSortAttr
   have hp : (sortBy (·.type) s).Perm s := sortBy_perm _ s
   exact sort_by_key_perm_invariant _ _ _ hp
     (fun a ha b hb => hinj a (hp.mem_iff.mp ha) b (hp.mem_iff.mp hb))
+
+example : ∀ a ∈ [thingFoo], ∀ b ∈ [thingFoo], lower (resourceType a) = lower (resourceType b) → a = b := by decide
+
+/-- the hypothesis of `resource_helpers_order_free` cannot be dropped altogether: two distinct set
+members with the same full type (and hence the same short type) still come out in set order -/
+theorem resource_helpers_needs_distinct_types (a b : Resource) (hab : a ≠ b) (ht : a.type = b.type) :
+    resourceHelperOrder [a, b] ≠ resourceHelperOrder [b, a] := by
+  unfold resourceHelperOrder jinjaSortAttr
+  have h1 := sort_by_key_needs_injective (·.type) a b hab ht
+  have hk : lower (resourceType a) = lower (resourceType b) := by simp [resourceType, ht]
+  have h2 := sort_by_key_needs_injective (fun r => lower (resourceType r)) a b hab hk
+  rw [h1.1, h1.2.1]
+  exact h2.2.2
+
+example : (⟨['x','/','T'], ['a']⟩ : Resource) ≠ ⟨['x','/','T'], ['b']⟩ ∧
+    (⟨['x','/','T'], ['a']⟩ : Resource).type = (⟨['x','/','T'], ['b']⟩ : Resource).type := by decide
 
 end GapicModel.Props.C10
